@@ -9,7 +9,7 @@ T2  Gen_PreloadSkel.v  the body of etcLdSoPreload_writeFile as a skeleton term (
                        there from the skeleton itself.
 An unrecognised pattern yields a value that makes preload_consts_ok false (and a note)."""
 import os, re, subprocess
-from .translate import strip_comments, func_body, c_unescape, emit, write_sidecars
+from .translate import strip_comments, func_body, c_unescape, emit, write_sidecars, resolve_locals
 from .skel import emit_skeletons
 
 CHAR = r"'((?:\\.|[^'\\])+)'"
@@ -52,6 +52,63 @@ def block_after(src, start):
     return src[i + 1:j - 1]
 
 
+def parse_ifs(body):
+    """every `if (cond) { then } [else { els }]` of the text (also nested ones): list of (cond, then, els|None)"""
+    out = []
+    for m in re.finditer(r"\bif\s*\(", body):
+        i = m.end()
+        depth, j = 1, i
+        while j < len(body) and depth:
+            depth += {"(": 1, ")": -1}.get(body[j], 0)
+            j += 1
+        cond = body[i:j - 1]
+        k = j
+        while k < len(body) and body[k].isspace():
+            k += 1
+        if k >= len(body) or body[k] != "{":
+            continue
+        then = block_after(body, k)
+        e = k + len(then) + 2
+        mm = re.match(r"\s*else\s*\{", body[e:])
+        els = block_after(body, e + mm.end() - 1) if mm else None
+        out.append((cond, then, els))
+    return out
+
+
+def only_comparisons(cond, var_pat, op, joiner):
+    """cond is nothing but `<var> <op> '<char>'` terms joined by `joiner` (parentheses allowed): the characters, else None"""
+    pat = var_pat + r"\s*" + re.escape(op) + r"\s*" + CHAR
+    cs = chars(cond, pat)
+    rest = re.sub(pat, "", cond)
+    rest = rest.replace(joiner, "")
+    if cs and not re.sub(r"[\s()]", "", rest):
+        return cs
+    return None
+
+
+def entry_delims(sub):
+    """bytes accepted right after the path by findEntry: compared directly (`entryPos[strlen(entry)] == 'x'`, the length possibly hoisted
+    into a local) or in a file-local static helper that receives that byte as its parameter"""
+    fe = resolve_locals(func_body(sub, "etcLdSoPreload_findEntry") or "")
+    AT = r"entryPos\s*\[\s*strlen\s*\(\s*entry\s*\)\s*\]"
+    dl = chars(fe, AT + r"\s*==\s*" + CHAR)
+    if dl:
+        return dl
+    m = re.search(r"\b(\w+)\s*\(\s*" + AT + r"\s*\)", fe)
+    if not m:
+        return None
+    helper = m.group(1)
+    sig = re.search(r"\bstatic\s+[\w\s]+?\b" + re.escape(helper) + r"\s*\(\s*(?:const\s+)?(?:unsigned\s+)?char\s+(?:const\s+)?(\w+)\s*\)\s*\{", sub)
+    hb = func_body(sub, helper)
+    if not sig or hb is None:
+        return None
+    # the helper must be a single `return <disjunction of comparisons of its parameter>;`
+    r = re.fullmatch(r"\s*return\s*(.*?);\s*", hb, re.S)
+    if not r:
+        return None
+    return only_comparisons(r.group(1), r"\b" + re.escape(sig.group(1)) + r"\b", "==", "||")
+
+
 def tr_preload(run):
     notes = run.notes
     v = {}
@@ -74,8 +131,9 @@ def tr_preload(run):
         name = None
     v["lib_name"] = name
     # --- findEntry: bytes accepted after the entry
-    fe = func_body(sub, "etcLdSoPreload_findEntry") or ""
-    dl = chars(fe, r"entryPos\s*\[\s*strlen\s*\(\s*entry\s*\)\s*\]\s*==\s*" + CHAR)
+    dl = entry_delims(sub)
+    if not dl:
+        notes.append("translator: findEntry: the test of the byte after the entry (entryPos[strlen(entry)] == '...' || ...) was not recognised")
     v["entry_delims"] = bytes(x for x in dl if x != 0) if dl else None
     # --- findNonCommentLine: the comment byte
     fn = func_body(sub, "etcLdSoPreload_findNonCommentLineContainingString") or ""
@@ -86,8 +144,20 @@ def tr_preload(run):
     m = re.search(r"while\s*\(((?:[^()]|\([^()]*\))*)\)\s*\{\s*srcPosPtr\s*\+\+\s*;\s*\}", db)
     bl = chars(m.group(1), r"\*\s*srcPosPtr\s*==\s*" + CHAR) if m else None
     v["dis_blanks"] = bytes(bl) if bl else None
-    m = re.search(r"if\s*\(((?:[^()]|\([^()]*\))*)\)\s*\{\s*copyLength\s*=\s*\(\s*unsigned\s+int\s*\)\s*strlen\s*\(\s*srcPosPtr\s*\)\s*;\s*\}\s*else", db)
-    sp = chars(m.group(1), r"\*\s*srcPosPtr\s*!=\s*" + CHAR) if m else None
+    # the "whole line or entry only" decision, in either polarity: if (all != ...) { keep the rest } else {...}  /  if (any == ...) {...} else { keep the rest }
+    KEEP = r"\s*copyLength\s*=\s*\(\s*unsigned\s+int\s*\)\s*strlen\s*\(\s*srcPosPtr\s*\)\s*;\s*"
+    sp = None
+    for (cond, then, els) in parse_ifs(db):
+        if els is None:
+            continue
+        if re.fullmatch(KEEP, then):
+            sp = only_comparisons(cond, r"\*\s*srcPosPtr", "!=", "&&")
+        elif re.fullmatch(KEEP, els):
+            sp = only_comparisons(cond, r"\*\s*srcPosPtr", "==", "||")
+        if sp:
+            break
+    if not sp:
+        notes.append("translator: disable: the decision between removing the whole line and removing the entry only was not recognised")
     v["dis_stops"] = bytes(x for x in sp if x != 0) if sp else None
     # --- enable: an already-active entry next to another active mention is refused
     eb = func_body(en, "snoopy_cli_action_enable") or ""
@@ -99,6 +169,19 @@ def tr_preload(run):
     else:
         notes.append("translator: enable's own-entry test not recognised")
     v["enable_guard"] = guard
+    # diagnosis for a broken gen_ok: which statement group was read differently from what the theorems are proved for
+    want = {"lib_name": (b"libsnoopy.so", "the needle SNOOPY_SO_LIBRARY_NAME at the search sites"),
+            "entry_delims": (b"\n# \t", "findEntry: bytes accepted after the path (entryPos[strlen(entry)] == ...)"),
+            "comment_ch": (b"#", "findNonCommentLine...: if (*lineStartPtr != '#') return lineStartPtr"),
+            "dis_blanks": (b" \t", "disable: while (*srcPosPtr == ' ' || ... '\\t') srcPosPtr++"),
+            "dis_stops": (b"\n#", "disable: whole line or entry only (*srcPosPtr != '\\0' && != '\\n' && != '#')")}
+    for k, (exp, what) in want.items():
+        got = v.get(k)
+        same = got is not None and (got == exp if k == "lib_name" else set(got) == set(exp))
+        if not same:
+            notes.append("translator: %s: read %s, the theorems are proved for %r" % (what, "nothing (statement not recognised)" if got is None else repr(got), exp))
+    if not guard:
+        notes.append("translator: enable: no second foreign-instance search + fatalError in the 'already enabled' branch (D23 guard)")
     order = ["lib_name", "entry_delims", "comment_ch", "dis_blanks", "dis_stops", "enable_guard"]
     bad = {"lib_name": b"", "entry_delims": b"", "comment_ch": b"\x00", "dis_blanks": b"", "dis_stops": b"", "enable_guard": False}
     js, tsv = emit(run, "preload", "Preload", "preload_consts", "From Snoopy Require Import Lib.CStr Preload.Model.", v, order, bad)
@@ -112,5 +195,5 @@ def tr_preload(run):
     # --- T2: the write skeleton
     emit_skeletons(run, "PreloadSkel", [("sk_writeFile", "src/cli/cli-subroutines.c", "etcLdSoPreload_writeFile"),
                                         ("sk_enable", "src/cli/action-enable.c", "snoopy_cli_action_enable"),
-                                        ("sk_disable", "src/cli/action-disable.c", "snoopy_cli_action_disable")])
+                                        ("sk_disable", "src/cli/action-disable.c", "snoopy_cli_action_disable")], inline_static=True)
     return js
